@@ -143,6 +143,7 @@ def compare_lxml(model, impl, args):
 # ----------------------------------------------------------------- generators
 from props import c03_oracle as _O  # noqa: E402,F401  (must be imported before c03_models)
 from props import c03_models  # noqa: E402
+from props import c03_compose  # noqa: E402
 from props.c03_gen import (  # noqa: E402
     gen_clean,
     gen_escape,
@@ -169,6 +170,13 @@ CORRS = [
     Corr("ser.object", c03_models.gen_ser_object, c03_models.impl_ser_object, canon=c03_models.canon_ser_object,
          classify=lambda a, o: "ok:depth%d" % c03_models.depth(a["model"]) if "ok" in o else "err:" + str(o.get("err")),
          describe="XmlSerializer.render of dataclasses built from a declarative model (both writers) vs Lean Spec.ObjectTree.specRoot"),
+    Corr("ser.compose", c03_compose.gen_compose, c03_compose.impl_compose, compare=c03_compose.cmp_compose,
+         classify=c03_compose.classify_compose,
+         describe="XmlSerializer(writer=XmlEventWriter).render on real class universes vs Bind/Gen ∘ Xml/Writer (exact text)"),
+    Corr("ser.hyps", c03_compose.gen_compose, c03_compose.impl_hyps, compare=c03_compose.cmp_compose,
+         classify=c03_compose.classify_hyps,
+         describe="hypotheses eventsOK/eventsPlain/userMapOK of serialize_*_partial: Lean on the model's events vs an independent "
+                  "transcription evaluated on the REAL generator's events"),
     Corr("ns.clean", gen_clean, impl_clean, describe="clean_prefixes"),
     Corr("xml.split_qname", gen_split, impl_split, describe="split_qname"),
     Corr("ns.load_prefix", gen_prefix, impl_load_prefix, describe="load_prefix"),
@@ -185,7 +193,9 @@ TRUSTED = [
     "tokens → text: `Xs.Sax.render` is compared byte for byte with XMLGenerator's output; that this text parses to the infoset `Spec.XmlNs.infoset` assigns to the tokens is checked by sampling against expat and lxml, not proved (no XML parser in Lean); escape/quoteattr are proved invertible and markup-free (escape_inverse, quoteattr_inverse)",
     "Spec/XmlNs.lean is my transcription of XML 1.0 (5th ed.) Char/NCName, end-of-line handling and the Namespaces in XML 1.0 constraints; `isNCName` is compared with libxml2's name validation on all code points < 0x250 and the range edges",
     "lxml's ElementTreeContentHandler + serializer are not modelled: the lxml writer is tied to the model's SAX calls by correspondence only (handler_denotes_events_partial is about those calls)",
-    "metadata → events (builders.py, EventGenerator) is not modelled; Spec/ObjectTree.lean (declarative reading of the metadata, no theorems) is compared with XmlSerializer.render on random binding models (op ser.object)",
+    "metadata → events: EventGenerator is the binding layer's model Bind/Gen.lean (C01's files, tied to the code by C01's ops and, composed with my writer, by op ser.compose on the exact text of XmlSerializer.render); builders.py is not modelled here: Spec/ObjectTree.lean (declarative reading of the metadata, no theorems) is compared with XmlSerializer.render on random binding models (op ser.object)",
+    "the generated events' lexical / ordering facts (eventsOK: NCName names, XML characters, ATTR only right after START/ATTR, no namespaced QName in late DATA) are a decidable hypothesis on `generate`'s output in serialize_*_partial, not derived from ctxOK/valOK; op ser.hyps evaluates it on the real generator's events and compares with Lean on the model's events. Well-nestedness of the events IS proved for every universe and value (generate_well_nested)",
+    "`NsEnv.isNcnamePy` (namespaces.is_ncname inside EventHandler.validate_prefixes) is instantiated with `ncnamePyApprox`: exact on ASCII, every non-ASCII character counted as str.isalpha; the generators use the non-ASCII prefixes U+00AA and U+00E9 only (both letters for Python)",
     "CPython dict order / str.replace / str.partition / str(int) are modelled by hand (Xml/Dict.lean, Py/Basic.lean)",
 ]
 ASSUMPTIONS = [
@@ -195,14 +205,18 @@ ASSUMPTIONS = [
     "event values are str / QName / lists of them / None (what EventGenerator.encode_primitive produces); int/bool atoms are modelled and compared but excluded from the theorems",
 ]
 LEVEL_TEXT = (
+    "Composition (serialize_wellformed_partial, serialize_denotes_sax_tree_partial, serialize_says_metadata_partial, render_wellformed_partial): for EVERY "
+    "universe and value, if Bind/Gen's EventGenerator model returns events they are well nested (generate_well_nested, proved), and when they pass the "
+    "decidable lexical check eventsOK the native writer model writes a namespace-well-formed document that denotes the tree of those events; "
+    "prefix maps that cannot be declared are rejected with XmlWriterError (invalid_prefix_rejected, render_rejects_invalid_prefixes; repair c03d-01). Below that: "
     "Lean theorems for all user prefix maps in userMapOK and all well-nested event sequences in contentOK/shapeOK: the "
     "EventHandler state machine issues exactly the calls of a recursive writer (L1), XMLGenerator turns them into a "
     "namespace-well-formed document whose infoset is the tree of those calls (L2: generate_prefix never rebinds a key — proved for every map incl. loop termination —, default-"
     "namespace reset, uri→prefix context vs scope invariants), which is the tree an independent reader assigns to the "
     "events (L3); counterexample theorems for each excluded region (and positive witnesses for the repaired ones); model tied to /repo by a differential check of the "
-    "native writer's exact text, the SAX call sequence, the lxml writer's infoset, the metadata reading and the namespace helpers."
+    "native writer's exact text (events level and, composed with the generator model, object level on real class universes), the SAX call sequence, the lxml writer's infoset, the metadata reading and the namespace helpers."
 )
 LEVEL_NOTE = (
     "Trusted: Lean kernel; hand model of dict/str primitives; XML/Namespaces spec transcription; token→text→parser link by sampling; "
-    "lxml writer and the metadata→events generator only by correspondence/oracle, not proved."
+    "lxml writer only by correspondence/oracle; generator→writer composition proved structurally, its lexical side condition (eventsOK) checked per case, not derived from the metadata."
 )
